@@ -223,14 +223,24 @@ class Run:
                 battery = battery[:2]
             elif ((sh.angmom + 1) * (sh.angmom + 2)) // 2 * sh.coeffs.shape[1] * sh.exps.shape[0] <= 8:
                 battery.append(("electron_repulsion_integral", lambda b: api.fn["electron_repulsion_integral"](b[:1])))
-            for name, f in battery:
+            try:
+                twin2 = type(sh)(sh.angmom, np.array(sh.coord), np.array(sh.coeffs), np.array(sh.exps), sh.coord_type,
+                                 icenter=sh.icenter)
+                if hasattr(sh, "variant"):
+                    twin2.variant = sh.variant
+            except Exception:  # noqa: BLE001
+                twin2 = None
+            for bi, (name, f) in enumerate(battery):
+                # second half of the battery on a basis that lists the shell twice, against two distinct but equal
+                # shells: the answer depends on the values of the shells, not on their identity
+                doubled = twin2 is not None and bi in (0, 3) and sh.angmom <= 3
                 with Ambient(None):
                     try:
-                        a = outcome_ok(f([sh] + others))
+                        a = outcome_ok(f(([sh, sh] if doubled else [sh]) + others))
                     except Exception as exc:  # noqa: BLE001
                         a = outcome_raise(exc)
                     try:
-                        b = outcome_ok(f([twin] + others))
+                        b = outcome_ok(f(([twin, twin2] if doubled else [twin]) + others))
                     except Exception as exc:  # noqa: BLE001
                         b = outcome_raise(exc)
                 try:
